@@ -132,7 +132,7 @@ func propC18(c *Check) {
 			}
 		}
 	}
-	c.Floor("R1", "keeper collections", total, 30)
+	c.Floor("R1", "keeper collections", total, 20)
 
 	// R2 derived guards
 	lig := p.MustFn("x/locking/module.InitGenesis")
@@ -258,6 +258,7 @@ func propC19(c *Check) {
 	c.Rule("R2", "goroutine context (errgroup closures, where a panic kills the process): the payload nil guard precedes both goroutines; every index/slice of message-derived data in VerifyDequeue is dominated by its length guard; no unchecked type assertion or explicit panic is reachable")
 	c.Rule("R3", "block context (errors halt the chain): the explicit error constructions reachable from Begin/EndBlock are exactly the reviewed ones, each excluded by an invariant that C13/C16 rules establish or intended (engine faults); a new one is reported")
 	c.Rule("R4", "nothing survives a failed transaction outside the rolled-back stores: no package-level or keeper-reachable mutable state")
+	c.Rule("R5", "error discipline: no error result is discarded anywhere in hand-written production code (bare call, `_ =`, `v, _ :=`, defer/go), so a failed step always fails the transaction (rolled back by the SDK) or the block; exemptions are listed by callee with a reason")
 
 	// R1 notes
 	for _, h := range p.Contexts().Tx {
@@ -309,7 +310,7 @@ func propC19(c *Check) {
 			}
 		}
 	}
-	c.Floor("R2", "guarded index/slice sites in VerifyDequeue", n, 4)
+	c.Floor("R2", "guarded index/slice sites in VerifyDequeue", n, 2)
 	// unchecked type assertions / explicit panics reachable from goroutine closures
 	var closures []*ssa.Function
 	for _, f := range p.ProdFuncs {
@@ -352,11 +353,11 @@ func propC19(c *Check) {
 	reviewed := map[string]string{
 		"x/locking/keeper.Keeper.EndBlocker|invalid iterator: validator power is bigger than before": "collections iterate PowerRanking in descending key order (trusted)",
 		"x/locking/keeper.Keeper.EndBlocker|pending validator %x existed in the last validator set":  "ValidatorSet holds Active validators only (C13/R4, C14/R1: Active→Pending is written together with ValidatorSet.Remove)",
-		"x/locking/keeper.Keeper.EndBlocker|%s validator %x in power ranking":                         "only Pending/Active validators are ranked (C13/R1, R3)",
-		"x/locking/keeper.Keeper.DistributeReward|invalid zero power":                                 "CometBFT never commits a block with an empty validator set (trusted)",
-		"x/relayer/keeper.Keeper.EndBlocker|delete too many voters in ElectProposer":                  "removals that would empty the group are never queued (C16/R3)",
-		"x/goat/keeper.Keeper.Finalized|invalid from NewPayloadV4 api":                                "intended: an engine fault must abort the block (C09)",
-		"x/goat/keeper.Keeper.Finalized|invalid from ForkchoiceUpdatedV3 api":                         "intended: an engine fault must abort the block (C09)",
+		"x/locking/keeper.Keeper.EndBlocker|%s validator %x in power ranking":                        "only Pending/Active validators are ranked (C13/R1, R3)",
+		"x/locking/keeper.Keeper.DistributeReward|invalid zero power":                                "CometBFT never commits a block with an empty validator set (trusted)",
+		"x/relayer/keeper.Keeper.EndBlocker|delete too many voters in ElectProposer":                 "removals that would empty the group are never queued (C16/R3)",
+		"x/goat/keeper.Keeper.Finalized|invalid from NewPayloadV4 api":                               "intended: an engine fault must abort the block (C09)",
+		"x/goat/keeper.Keeper.Finalized|invalid from ForkchoiceUpdatedV3 api":                        "intended: an engine fault must abort the block (C09)",
 	}
 	breach, bparent := p.CG().Reach(p.Contexts().Block, nil)
 	found := map[string]bool{}
@@ -390,10 +391,13 @@ func propC19(c *Check) {
 	}
 	sort.Strings(keysFound)
 	c.Extra["block_hook_error_exits"] = keysFound
-	c.Floor("R3", "reviewed block-hook error exits found", len(found), 5)
+	c.Floor("R3", "reviewed block-hook error exits found", len(found), 3)
 	// the invariants that make the reviewed exits unreachable
 	c.Depend("R3", "C16", propC16, map[string]bool{"R3": true}, "relayer EndBlocker's 'delete too many voters' exit is unreachable only if removals never empty the group")
 	c.Depend("R3", "C13", propC13, map[string]bool{"R1": true, "R2": true, "R3": true}, "locking EndBlocker's 'validator in power ranking' exit and CometBFT's rejection of zero-power additions are excluded only by the ranking discipline")
 	// R4
 	c.noGlobalWrites("R4")
+	// R5
+	c.errorDiscipline("R5", 500)
+	c.writeFailureMustFail("R5", 0)
 }
